@@ -11,6 +11,7 @@ mod sets;
 mod fixedtx;
 mod mdjson;
 mod keys;
+mod hashes;
 mod codec;
 mod parse;
 
@@ -36,6 +37,7 @@ fn main() {
         "parse" => parse::main(&a),
         "json" => mdjson::main(&a),
         "keys" => keys::main(&a),
+        "hashes" => hashes::main(&a),
         d => {
             eprintln!("unknown driver {}", d);
             std::process::exit(2);
